@@ -226,21 +226,30 @@ pub struct Recorder {
     pub log: EventLog,
     pub script: Mutex<Option<Script>>,
     pub drain_body: bool,
+    /// when set: Debug renderings of what the backend was handed (credentials, streams) go here
+    pub debug_sink: Option<Arc<Mutex<String>>>,
 }
 
 impl Recorder {
     pub fn new(log: EventLog) -> Self {
-        Self { log, script: Mutex::new(None), drain_body: true }
+        Self { log, script: Mutex::new(None), drain_body: true, debug_sink: None }
     }
     pub fn with_script(log: EventLog, script: Script) -> Self {
-        Self { log, script: Mutex::new(Some(script)), drain_body: true }
+        Self { log, script: Mutex::new(Some(script)), drain_body: true, debug_sink: None }
     }
 
     pub async fn handle(&self, op: &'static str, meta: ReqMeta, mut input: AnyInput) -> S3Result<Answer> {
         let mut body = Vec::new();
         let mut chunks = Vec::new();
         let mut body_end = BodyEnd::NoBody;
+        if let Some(sink) = &self.debug_sink {
+            let mut t = sink.lock().unwrap();
+            t.push_str(&format!("{:?}\n{:#?}\n{:?}\n", meta.credentials, meta.credentials, meta.headers));
+        }
         if let Some(mut blob) = input.take_blob() {
+            if let Some(sink) = &self.debug_sink {
+                sink.lock().unwrap().push_str(&format!("{blob:?}\n{blob:#?}\n"));
+            }
             if self.drain_body {
                 use futures::StreamExt;
                 body_end = BodyEnd::Clean;
